@@ -71,7 +71,10 @@ def _task(a):
         def _alarm(signum, frame):
             raise verify.UnitTimeout()
         signal.signal(signal.SIGALRM, _alarm)
-        signal.alarm(int(os.environ.get("PYVC_UNIT_BUDGET_S", "600" if tier == "quick" else "5400")))
+        default_budget = "600" if tier == "quick" else "5400"
+        budget = int(os.environ.get("PYVC_UNIT_BUDGET_S", default_budget))
+        budget = max(budget, int(getattr(unit, "wall_budget_s", 0)))       # a few slow lemmas declare a larger budget
+        signal.alarm(budget)
         try:
             return verify.run_unit(unit, cfg, tier=tier, known=known)
         finally:
